@@ -207,12 +207,20 @@ def to_tk(circuit):
         tk_circ.rename_units({new: old})
         tk_circ.rename_units({tmp: new})
 
+    def is_self_adjoint(box):
+        matrix = box.array.reshape(2 * (2 ** len(box.dom), ))
+        return (matrix == matrix.conj().T).all()
+
     def add_gate(qubits, box, offset):
         i_qubits = [qubits[offset + j] for j in range(len(box.dom))]
         if isinstance(box, (Rx, Rz)):
             tk_circ.__getattribute__(box.name[:2])(2 * box.phase, *i_qubits)
         elif isinstance(box, CRz):
             tk_circ.__getattribute__(box.name[:3])(2 * box.phase, *i_qubits)
+        elif box.is_dagger and not is_self_adjoint(box):
+            if not hasattr(tk_circ, box.name + "dg"):
+                raise NotImplementedError
+            tk_circ.__getattribute__(box.name + "dg")(*i_qubits)
         elif hasattr(tk_circ, box.name):
             tk_circ.__getattribute__(box.name)(*i_qubits)
         else:
@@ -285,6 +293,8 @@ def from_tk(tk_circuit):
         for gate in GATES:
             if name == gate.name:
                 return gate
+            if name == gate.name + 'dg' and gate.is_dagger is False:
+                return gate.dagger()
         raise NotImplementedError
 
     def make_units_adjacent(tk_gate):
